@@ -114,20 +114,22 @@ CLAIMS = {
              "are covered by the run, not by the read theorem.",
              technique="Lean 4 invariant proof (ReadInv over journal + cache + worker, ghost bound for truncations) + correspondence/oracle against the reference log",
              ref="8 C07"),
- "C03": dict(text="Proved in full for histories that have not dropped a chunk yet (c03_crash_prefix_no_drop, c03_acked_writes_survive_no_drop): "
-             "for every legal history of calls, flushes and worker steps with arbitrary outcomes (short writes, failed syncs), every crash image of the "
-             "final directory allowed by the crash model (per file: cut anywhere at or after the durable length, or zero-filled from a record boundary; "
-             "process crash and worst power failure are instances) and every configuration, if open succeeds the recovered state and index keys are those "
-             "of the reference log after some prefix of the entry-level writes, and that prefix contains every write issued before a flush whose callback "
-             "reported success. Building blocks proved for ALL histories: S1 every chunk file is a byte prefix of its records' encodings and every crash "
-             "image of it parses to a record prefix (no torn record visible); S4 every live chunk file is written and durable up to the acknowledged "
-             "position, a positive callback means acknowledged >= journal end at that flush. PARTIAL after chunks were dropped: "
-             "c03_crash_prefix_partial / c03_acked_writes_survive_partial need the explicit hypotheses `no removal outstanding` and `marker <= acknowledged` "
-             "(the invariant that unlink happens only after the purge record is synced is not proved; counterexamples c03_removals_needed, c03_marker_needed "
-             "show why unconditional prefix statements fail in those intermediate states). That gap is covered only by the correspondence/oracle run: "
-             "crash images (cut / zero-fill / process) at every worker progress point and EIO position of generated histories incl. purges, rotations and "
-             "blocked rotations; recovered st/entries must equal a prefix of the reference run bounded below by the implementation-side acknowledgements.",
-             technique="Lean 4 invariant proofs (journal, durability, history mirror) over a crash-image model + correspondence/oracle over enumerated crash images",
+ "C03": dict(text="Proved in full (c03_crash_prefix, c03_acked_writes_survive; no side hypothesis): for every configuration and every legal "
+             "history of calls, flushes and worker steps with arbitrary outcomes (short writes, failed syncs) along which the worker stays "
+             "alive, every crash image of the final directory allowed by the crash model (per linked file: cut anywhere at or after the "
+             "durable length, or zero-filled from a record boundary; process crash and worst power failure are instances) and every "
+             "configuration of the reopening: if open succeeds, the recovered state and index keys are those of the reference log after "
+             "some prefix of the entry-level writes of the history, and that prefix contains every write issued before any flush whose "
+             "callback reported success. Ingredients, each for ALL histories: S1 every chunk file is a byte prefix of its records' "
+             "encodings and every crash image of it parses to a record prefix (no torn record visible); S2 recovery = replay of a prefix "
+             "of the journal of the linked files (live chunks plus dropped-but-not-yet-unlinked chunks: ghost store); S3 journal prefixes "
+             "beyond the drop marker mirror history prefixes; S4 every file is written and durable up to the acknowledged position and a "
+             "positive callback raises it to its flush's journal end; marker invariant: a chunk file is unlinked only after the purge "
+             "that dropped it is acknowledged (c03_marker_invariant). Entry payloads are compared by the run (read), the theorem speaks "
+             "of state and index keys. Correspondence/oracle: crash images (cut / zero-fill / process) at every worker progress point and "
+             "EIO position of generated histories incl. purges, rotations and blocked rotations; recovered st/entries must equal a "
+             "reference prefix bounded below by the implementation-side acknowledgements.",
+             technique="Lean 4 invariant proofs (journal, durability, history mirror, ghost store) over a crash-image model + correspondence/oracle over enumerated crash images",
              ref="8 C03"),
  "C02": dict(text="Proved (c02_clean_restart, c02_cycles, c02_refinement_continues): for every legal history with the worker alive, "
              "if everything is flushed, the worker is quiet and no removal is outstanding, then drop + open with ANY "
